@@ -120,6 +120,12 @@ pub const CURATED: &[&str] = &[
     r"(foo)(bar)?", r"(?P<x>a)b", r"\pL+", r"\p{Greek}", r"δ", r"é+", r"[é-ë]", r"(?-u:\w)a", r"(?-u:\xFF)",
     r"\x00", r"a\x00b", r"[\x00a]", r"a\r", r"a\r?$", r"\r$", r"^\r", r"a\r*b", r"fo+\w+ba", r"(?m)^b",
     r"\w+\s\w+", r"x\w{3}y", r"abc\w", r"\wabc", r"\w+abc\w+def\w+", r"(ab|cd)\w+(ef|gh)", r"a+b+c+",
+    // around the inner-literal extractor's limits (repeat 10, total 64, class 10, literal length)
+    r"a{10}b", r"a{11}b", r"xa{11}b", r"x(?:ab){11}c", r"\bx(?:ab){11}c\b", r"-0{12}-", r"#(?:-=){12}#", r"[ab]{11}c",
+    r"\w(?:ab){11}\w", r"(?:ab){5,7}c", r"x[a-k]y", r"x[a-j]y", r"\w[ab][cd][ef][gh]\w", r"abcdefghijklmnopqrstuvwxyz\w",
+    r"\wfoo(?:bar)?baz\w", r"\w(?:foo|bar|baz|quux)\w", r"\s(?:a|b|c|d|e|f|g|h|i|j|k)x\s",
+    // raw (unescaped) terminator bytes in the pattern text
+    "foo\r", "a\rb", "\r", "a\nb", "foo\n", "\r\n", "a\r\n",
     r"Sherlock", r"\bSherlock\b", r"Sherlock|Watson", r"\w{5}\s+Holmes", r"[A-Z]\w+", r"-2", r"\+", r"a\.b",
 ];
 
@@ -232,6 +238,21 @@ pub fn regex_options(pattern: &str, tier: &str, seed: u64) -> Vec<ROpts> {
     let mut crlf = ROpts::base();
     crlf.term = Term::Crlf;
     out.push(crlf);
+    if pattern.contains('\r') || pattern.contains('\n') {
+        for term in [Term::Lf, Term::Crlf] {
+            let mut o = ROpts::base();
+            o.fixed = true;
+            o.term = term;
+            out.push(o);
+        }
+    }
+    if pattern.contains('{') || pattern.contains("\\w") {
+        // the inner-literal path is taken for regexes the engine does not
+        // accelerate itself: -w and Unicode word boundaries
+        let mut o = ROpts::base();
+        o.word = true;
+        out.push(o);
+    }
     let mut rng = Rng(hash_str(pattern) ^ seed);
     let k = if tier == "thorough" { 8 } else { 3 };
     for _ in 0..k {
